@@ -37,7 +37,8 @@ LEVEL_TEXT = ("Exploration: hundreds to thousands of stacks (all permutations of
               "dtype x read dtype x TIFF/NPY/NRRD x compression) and of rasterised trees (2-30 "
               "nodes, dyadic / anisotropic / generic resolutions, radii around the voxel size, "
               "positions up to |1000|, explicit ranges), every voxel compared. Held = held on those "
-              "executions.")
+              "executions."
+              "A third of the rasters are repeated with the same transformer on the same tree object after an in-place edit.")
 LEVEL_NOTE = ("Raster workload bounded to proper round cones (segment longer than the radius "
               "difference by a margin) and trees with >= 2 nodes; a voxel centre within 1e-3 of the "
               "surface, or a boundary centre within 1e-4 of the upper bound, is not decided. Trusts "
